@@ -15,19 +15,19 @@ var wireAssume = []string{
 
 func init() {
 	Registry["C01"] = func(c *Ctx) (int, error) {
-		return RunWire(c, &WireSpec{GenModule: "Gen_Wire", GenConsts: map[string]string{"OptMode": `"default"`, "ValMode": `"all"`}, GenInvs: wireTheorems,
+		return RunWire(c, &WireSpec{GenModule: "Gen_Wire", GenConsts: map[string]string{"OptMode": `"default"`, "ValMode": `"all"`, "Muts": `"none"`}, GenInvs: wireTheorems,
 			Op: "codec", JudgeProp: "C01", DevProps: []string{"C01", "C02", "C12"}, Level: "model_checking",
 			Rule:   "cases = TLC-enumerated (shape x context x boundary value); a case is non-trivial if its encoding has more than 2 bytes; every encoder output is decoded by every decoder",
 			Assume: wireAssume, Nontrivial: func(s *wireSchema, cs *wireCase) bool { return len(cs.Enc) > 2 }})
 	}
 	Registry["C02"] = func(c *Ctx) (int, error) {
-		return RunWire(c, &WireSpec{GenModule: "Gen_Wire", GenConsts: map[string]string{"OptMode": `"default"`, "ValMode": `"all"`}, GenInvs: wireTheorems,
+		return RunWire(c, &WireSpec{GenModule: "Gen_Wire", GenConsts: map[string]string{"OptMode": `"default"`, "ValMode": `"all"`, "Muts": `"none"`}, GenInvs: wireTheorems,
 			Op: "codec", JudgeProp: "C02", DevProps: []string{"C02", "C12"}, Level: "model_checking",
 			Rule:   "cases = TLC-enumerated (shape x context x boundary value) x {MarshalBebop, MarshalBebopTo into 00/FF/A5-filled buffers with and without slack, EncodeBebop}; non-trivial if the encoding has more than 2 bytes",
 			Assume: wireAssume, Nontrivial: func(s *wireSchema, cs *wireCase) bool { return len(cs.Enc) > 2 }})
 	}
 	Registry["C03"] = func(c *Ctx) (int, error) {
-		return RunWire(c, &WireSpec{GenModule: "Gen_Wire", GenConsts: map[string]string{"OptMode": `"default"`, "ValMode": `"all"`}, GenInvs: wireTheorems,
+		return RunWire(c, &WireSpec{GenModule: "Gen_Wire", GenConsts: map[string]string{"OptMode": `"default"`, "ValMode": `"all"`, "Muts": `"none"`}, GenInvs: wireTheorems,
 			Op: "codec", JudgeProp: "C03", DevProps: []string{"C03", "C02", "C12"}, Level: "model_checking",
 			Rule:   "cases = TLC-enumerated (shape x context x boundary value incl. both orders of two-entry maps); reference bytes come from BebopWire.Enc; non-trivial if the encoding has more than 2 bytes",
 			Assume: wireAssume, Nontrivial: func(s *wireSchema, cs *wireCase) bool { return len(cs.Enc) > 2 }})
@@ -36,7 +36,7 @@ func init() {
 
 func init() {
 	Registry["C12"] = func(c *Ctx) (int, error) {
-		return RunWire(c, &WireSpec{GenModule: "Gen_Wire", GenConsts: map[string]string{"OptMode": `"cover"`, "ValMode": `"first"`}, GenInvs: []string{"Export"},
+		return RunWire(c, &WireSpec{GenModule: "Gen_Wire", GenConsts: map[string]string{"OptMode": `"cover"`, "ValMode": `"first"`, "Muts": `"none"`}, GenInvs: []string{"Export"},
 			Op: "generate", JudgeProp: "C12", DevProps: []string{"C12"}, Level: "model_checking",
 			Rule: "programs = TLC-enumerated (field shape x context x generator option set), one package each; every accepted package is compiled alone with go build against /repo's bebop and iohelp; a program is non-trivial if its shape is a container or a user-defined type",
 			Assume: []string{"the Go compiler is the oracle for 'compiles' (no specification stands in for it)", "TLC enumerates the program universe; the acceptance predicate and the known-uncompilable shape classes are TLA+ predicates"},
@@ -50,7 +50,7 @@ func init() {
 		if c.Tier == "thorough" {
 			mod = 3
 		}
-		return RunWire(c, &WireSpec{GenModule: "Gen_Wire", GenConsts: map[string]string{"OptMode": `"cover"`, "ValMode": `"all"`}, GenInvs: []string{"Export"},
+		return RunWire(c, &WireSpec{GenModule: "Gen_Wire", GenConsts: map[string]string{"OptMode": `"cover"`, "ValMode": `"all"`, "Muts": `"none"`}, GenInvs: []string{"Export"},
 			Op: "codec", JudgeProp: "C09", DevProps: []string{"C09", "C12"}, Level: "model_checking",
 			Rule: "cases = TLC-enumerated (shape x context x value x option set: pairwise cover of the 2^5 sets in quick, all 32 in thorough), one generated package per (schema, option set); each schema is generated under the empty set and a seed-rotating third (quick) or quarter (thorough) of the other sets; a seed-dependent 1/6 (quick) or 1/3 (thorough) of the values is executed per package, at least one each; non-trivial if the option set is not empty",
 			Assume: wireAssume,
@@ -66,5 +66,32 @@ func init() {
 				return cs.Vi == 1 || (cs.Sid+cs.Mask*5+cs.Vi+c.Seed)%mod == 0
 			},
 			Nontrivial: func(s *wireSchema, cs *wireCase) bool { return cs.Mask != 0 }})
+	}
+}
+
+func init() {
+	Registry["C06"] = func(c *Ctx) (int, error) {
+		return RunWire(c, &WireSpec{GenModule: "Gen_Wire", GenConsts: map[string]string{"OptMode": `"default"`, "ValMode": `"all"`, "Muts": `"none"`}, GenInvs: wireTheorems,
+			Op: "cuts", JudgeProp: "C06", DevProps: []string{"C06", "C07"}, Level: "model_checking",
+			Rule: "cases = TLC-enumerated (shape x context x value); for each, EVERY cut point 0 <= k < len(reference encoding) is fed to UnmarshalBebop and to DecodeBebop (exhaustive per value); PrefixIsError is model-checked on the ideal decoder for the same cuts; a case is non-trivial if its encoding has more than 2 bytes",
+			Assume: append([]string{"'out of proportion' is measured as TotalAlloc delta > 64*len(input)+64KiB; hangs by a 20s watchdog; the worker runs under ulimit -v"}, wireAssume...),
+			CaseFilter: func(s *wireSchema, cs *wireCase) bool { return len(cs.Enc) <= 400 },
+			Nontrivial: func(s *wireSchema, cs *wireCase) bool { return len(cs.Enc) > 2 }})
+	}
+}
+
+func init() {
+	Registry["C07"] = func(c *Ctx) (int, error) {
+		vm := `"few"`
+		if c.Tier == "thorough" {
+			vm = `"all"`
+		}
+		return RunWire(c, &WireSpec{GenModule: "Gen_Wire", GenConsts: map[string]string{"OptMode": `"default"`, "ValMode": vm, "Muts": `"layout"`},
+			GenInvs: []string{"SizeIsLen", "LayoutLen", "DecTotal", "Export"},
+			Op: "corrupt", JudgeProp: "C07", DevProps: []string{"C07"}, Level: "model_checking",
+			Rule: "inputs = TLC-generated structure-aware corruptions of reference encodings (every length/count field set to 0, 1, n+1, n-1, 2^20, 2^31, 2^31-1, 2^32-1; every index/terminator/discriminator byte and first byte of every scalar replaced; chunks removed/duplicated at element boundaries; trailing garbage), each fed to UnmarshalBebop and DecodeBebop; DecTotal is model-checked on the ideal decoder for the same inputs; non-trivial = every corrupted input (distinct from the valid encoding)",
+			Assume: append([]string{"'unbounded' is measured as TotalAlloc delta > 64*len(input)+64KiB, a 3 GB address-space limit, and a 20s watchdog per call"}, wireAssume...),
+			CaseFilter: func(s *wireSchema, cs *wireCase) bool { return len(cs.Enc) <= 200 },
+			Nontrivial: func(s *wireSchema, cs *wireCase) bool { return true }})
 	}
 }
